@@ -328,6 +328,9 @@ fn apply_cops(world: &mut World) {
     }
 }
 
+#[derive(SystemSet, Debug, Hash, PartialEq, Eq, Clone, Copy)]
+struct VerifSet;
+
 fn mark_ran(mut ran: ResMut<ReplicationRan>) {
     ran.0 = true;
 }
@@ -369,13 +372,17 @@ impl Sim {
             .init_resource::<PreMap>()
             .init_resource::<ReplicationRan>()
             .add_systems(Update, apply_sops)
-            .add_systems(
+            // same shape as `send_replication`: the change detection is only evaluated while the server runs
+            .configure_sets(
                 PostUpdate,
-                mark_ran
-                    .run_if(resource_changed::<ServerTick>)
+                VerifSet
                     .after(ServerSet::Send)
                     .before(ServerSet::SendPackets)
                     .run_if(server_running),
+            )
+            .add_systems(
+                PostUpdate,
+                mark_ran.run_if(resource_changed::<ServerTick>).in_set(VerifSet),
             );
         server.finish();
         server.cleanup();
